@@ -3,6 +3,17 @@ generated from this table by tools/gen_manifest.py."""
 
 # pid -> dict(engine=<module in hyverif.engines>, level=..., text=..., note=..., technique=..., design=...)
 CHECKS = {
+    "C01": dict(
+        engine="core", level="model_checking", design="5.1, 6/C01",
+        technique="TLC trace validation of hy executions against the HyCore small-step semantics "
+                  "(nondeterministic argument-list interleaving) + TLC exploration of all allowed outcomes",
+        text="Every generated program (exhaustive by size + random deep, with an exception injected at each "
+             "effect call) is compiled and run by hy; TLC validates the observed effect log, result and final "
+             "globals against specs/HyCore.tla, whose invariants (unselected branches silent, short-circuit, "
+             "ordered forms one child at a time) are checked on every state; small programs are also explored "
+             "exhaustively by TLC and the observed outcome must be in the exported set.",
+        note="Trusts the renderer/projection, CPython primitives on small values; recursion, call depth > 3 and "
+             "string arithmetic are out of the modelled fragment and only counted."),
     "C38": dict(
         engine="gensym", level="model_checking", design="5.8, 6/C38",
         technique="TLC exhaustive interleavings of the op program extracted from gensym's bytecode; "
